@@ -5,6 +5,8 @@
    L [I 2; pag; mag0; m]     -> L [L verdicts]                                  verdicts of a GIVEN graph m (the implementation's result)
    L [I 3; mag0]             -> L [valid_mag_spec mag0; graph (pag_of_mag mag0)]
    L [I 4; pag; m]           -> L [structure_ok pag m]                          structural clauses of a GIVEN graph m
+   L [I 5; pdag; L pairs]    -> L [L [r1; r2; r3; r4] per ordered pair (i,j)]   UNIT level: does rule k of the proved model (C08) fire on i - j
+   L [I 6; pag; m]           -> L [structure_ok; acyclic; no adc; unshielded colliders marked]   cheap verdicts of a GIVEN m (large graphs)
    verdicts = [structure_ok; acyclic; no almost directed cycle; unshielded colliders marked in pag; valid_mag_spec; markov_equiv mag0] *)
 From Coq Require Import List Arith Bool.
 From PG Require Import Base.ListSet Base.Sx Graph.MGraph C08.Model C09.Model C09.Oracle C09.HypsB.
@@ -22,5 +24,11 @@ Definition run_case (s : sx) : sx :=
          L [of_graph m; verdicts g (sx_graph (sx_nth s 2)) m; L [of_bool (pag_hypsb g); of_bool (rounds_ok_small_b g)]]
   | 2 => L [verdicts g (sx_graph (sx_nth s 2)) (sx_graph (sx_nth s 3))]
   | 3 => L [of_bool (valid_mag_spec g); of_graph (pag_of_mag g)]
-  | _ => L [of_bool (structure_ok g (sx_graph (sx_nth s 2)))]
+  | 4 => L [of_bool (structure_ok g (sx_graph (sx_nth s 2)))]
+  | 5 => L (map (fun e : nat * nat => let (i, j) := e in
+              let u := has_u g i j in
+              L [of_bool (u && r1 g i j); of_bool (u && r2 g i j); of_bool (u && r3 g i j); of_bool (u && r4 g i j)])
+            (sx_pairs (sx_nth s 2)))
+  | _ => let m := sx_graph (sx_nth s 2) in
+         L [of_bool (structure_ok g m); of_bool (acyclicb m); of_bool (no_adc m); of_bool (unsh_colliders_marked g m)]
   end.
